@@ -589,6 +589,62 @@ pub fn lrand(g: &mut Gen, r: &mut Rng, cases: usize, maxlen: usize) {
     }
 }
 
+/// nesting-depth stream: lists with controlled nesting (chains, combs, real serialisations);
+/// compares the model's `diffDepth` with the depth observed through the crate's tracing spans
+pub fn ldepth(g: &mut Gen, r: &mut Rng, cases: usize) {
+    for case in 0..cases {
+        let mut r = r.fork(case as u64);
+        let depth = 1 + r.below(24);
+        let mk = |r: &mut Rng, h: u8| {
+            // a chain of `depth` strictly nested ranges, each optionally followed by leaf siblings
+            let mut l: Vec<(Vec<u8>, Vec<u8>, Vec<u8>)> = vec![];
+            let (mut lo, mut hi) = (0u64, 4 * depth + 8);
+            for _ in 0..depth {
+                l.push((vec![lo as u8], vec![hi as u8], vec![h.wrapping_add(r.below(2) as u8)]));
+                if r.chance(1, 3) && hi > lo + 3 {
+                    l.push((vec![lo as u8 + 1], vec![lo as u8 + 1], vec![h]));
+                    lo += 1;
+                }
+                lo += 1;
+                hi -= 1 + r.below(2);
+                if hi <= lo {
+                    break;
+                }
+            }
+            if r.chance(1, 4) {
+                r.shuffle(&mut l);
+            }
+            l
+        };
+        let la = mk(&mut r, 1);
+        let hb = if r.chance(1, 2) { 1 } else { 3 };
+        let lb = mk(&mut r, hb);
+        g.op(format!("list 0 {}", show_items(&la)));
+        g.op(format!("list 1 {}", show_items(&lb)));
+        let d = g.op("ldepth 0 1".into());
+        g.op("ldiff 0 1".into());
+        g.cases += 1;
+        g.note(&format!("depth:{d}"));
+        g.shapes.insert(fnv(&format!("{la:?}{lb:?}")));
+        if case < 2 {
+            g.sample(format!("ldepth: |local|={} |peer|={} -> depth {d}", la.len(), lb.len()));
+        }
+    }
+    // exact chains: model theorem C13_depth_chain says depth n
+    for n in [0usize, 1, 2, 5, 17, 60, 120] {
+        let mk = |h: u8| -> Vec<(Vec<u8>, Vec<u8>, Vec<u8>)> {
+            (0..n).map(|i| (vec![i as u8], vec![(2 * n - i) as u8], vec![h])).collect()
+        };
+        g.op(format!("list 0 {}", show_items(&mk(1))));
+        g.op(format!("list 1 {}", show_items(&mk(2))));
+        let d = g.op("ldepth 0 1".into());
+        if d != n.to_string() {
+            g.exec.fails.push(OracleFail { prop: "C13", line_no: g.exec.line_no, msg: format!("nested chain of {n} ranges recursed to depth {d}") });
+        }
+        g.cases += 1;
+    }
+}
+
 pub fn lmut(g: &mut Gen, r: &mut Rng, cases: usize, max_keys: usize) {
     for case in 0..cases {
         let mut r = r.fork(case as u64);
